@@ -21,7 +21,7 @@ def bounds(tier):
 
 
 def expected_clauses(tier):
-    return ['stable', 'normal_eq', 'lstsq', 'lpc', 'pyule']
+    return ['stable', 'normal_eq', 'lstsq', 'lpc', 'pyule', 'pyule_history', 'input_unchanged']
 
 
 def shards(tier):
@@ -120,6 +120,23 @@ def eval_point(pt, R):
             R.check(close(np.asarray(al), a, 1e-7 * kap, 1e-9), 'lpc', feats, pt, al, a, 'lpc coefficients != aryule coefficients')
         except Exception as e:
             R.viol('lpc', dict(feats, exc=type(e).__name__), pt, repr(e), a, 'lpc raised')
+    if p in (1, 3) and N >= 8:
+        # history on one pyule object: compute, assign another record of the same length, recompute (same and lower order)
+        x2 = x[::-1].copy() if not np.array_equal(x[::-1], x) else x + np.arange(N)
+        for p2 in sorted(set([p, max(1, p - 1)])):
+            R.calls(3)
+            try:
+                o = spectrum.pyule(x, p)
+                o()
+                o.data = x2
+                o.ar_order = p2
+                o()
+                a2, P2, k2 = spectrum.aryule(x2, p2, 'biased')
+                R.check(close(np.asarray(o.ar), np.asarray(a2), 1e-12, 1e-14) and close(np.asarray(o.reflection), np.asarray(k2), 1e-12, 1e-14), 'pyule_history',
+                        dict(feats, order='same' if p2 == p else 'lower'), dict(pt, history=['compute', 'data=reversed', 'ar_order=%d' % p2, 'compute']),
+                        np.asarray(o.ar), np.asarray(a2), 'pyule recomputed after a data change does not hold the Yule-Walker model of the new data')
+            except Exception as e:
+                R.viol('pyule_history', dict(feats, exc=type(e).__name__), pt, repr(e), None, 'pyule history raised')
     R.calls()
     try:
         obj = spectrum.pyule(x, p)
